@@ -38,6 +38,11 @@ Oracles (all element-wise for arrays)
               third call must reproduce the first bit for bit (`repeatable`).
   inputs_not_mutated  no argument object of calculate_terms, collapse_modes or quick_tidal_dissipation (ndarrays, dicts of
               arrays / of tuples of arrays, typed dicts) is changed by the call: deep snapshot before, bit-wise comparison after.
+  history     (array cases of kind `single`) after the case's call, two more quick_tidal_dissipation calls at the same (truncation,
+              l_max) with the SAME ndarray objects (eccentricity, obliquity, orbital/spin frequency, viscosity, shear) overwritten
+              in place with the next generated state - second one with e exactly 0 - nothing else evaluated in between; each must
+              equal, bit for bit in every numeric entry of the result, a call with fresh arrays of the same values, and satisfies
+              the closed_form / all_zero clauses.  Cost: 4 repository calls, no harness sum (C10 quick CPU unchanged within noise).
   ctl_default the package-default CTL parameters (static_k2, fixed_q, fixed_dt of tides.models.global_approx, from
               TidalPy.defaultc or TidalPy.config; clause discarded if neither layout exists) through quick_tidal_dissipation
               and through a synchronous `simple_tidal` world with use_ctl=True (skipped with a label if the object API
@@ -77,6 +82,7 @@ Sensitivity (tools/mut.py, quick tier --cases 2000; all CAUGHT)
   mode_manipulation.py 'heating_term_new = heating_term_old + heating_term' -> '= heating_term' -> grouping, identity
   dissipation.py '(3. / 2.) * G * host_mass**2' -> '(3. / 2.) * G * host_mass' (first)    -> closed_form, grouping
   fixes/revert-35fe97c.diff, fixes/revert-2e2c7f6.diff                                    -> exception, sign(ctl_default)
+  seeded/C10-5 (eccentricity tables memoised on the identity of the input array) -> history, all_zero/closed_form (history)
   seeded/C10-3 (collapse_modes divides the caller's susceptibility array by M_host in place) -> inputs_not_mutated, direct
   seeded/C10-1 (synchronous regrouping merges modes of different frequency), C10-2 (dUdO accumulates dUdw) -> grouping, identity
   (DESIGN's `n_sig = abs(n_coeff)` removal only changes how many signatures share a frequency, i.e. is an equivalent
@@ -167,7 +173,7 @@ def fixed_cases(tier):
 def required_labels(tier):
     return ['spin:sync_none', 'spin:sync_explicit', 'spin:resonance', 'spin:retrograde', 'spin:generic', 'e:zero', 'e:pos',
             'obl:none', 'obl:zero', 'obl:on', 'scalar', 'array', 'clause:closed_form', 'clause:all_zero',
-            'clause:sign_checked', 'sign:outside_validity', 'kind:ctl_default', 'ctl_default:oop_checked', 'kind:direct',
+            'clause:sign_checked', 'sign:outside_validity', 'kind:ctl_default', 'ctl_default:oop_checked', 'kind:direct', 'history:checked',
             'direct:array_susceptibility', 'direct:scalar_susceptibility', 'l_max:2', 'l_max:3'] + \
         ['rheo:' + r for r in tc.DISSIPATIVE + tc.NONDISSIPATIVE] + \
         (['trunc:%d' % t for t in tc.TRUNCS] if tc.shard_info() is None else [])
@@ -356,7 +362,51 @@ def _evaluate(case):
                 '%s: passive rheology inside the validity range (harness H_N=%r, H_20=%r) but heating=%r' % (ctx, ms.heating, ms20.heating, H))
     else:
         c.label('sign:not_passive')
+    if not ctl_default:
+        _history(c, case, kw)
     return c.result()
+
+
+def _history(c, case, kw_live):
+    """Call-history clause (tides_common.history_check) for quick_tidal_dissipation: two more calls with the SAME ndarray objects
+    overwritten in place (second one: e exactly 0), each equal bit for bit to a call with fresh arrays; plus the closed-form and
+    all-zero clauses on the history results.  Costs four extra repository calls and no harness mode sum, array cases only."""
+    from TidalPy.toolbox.quick_tides import quick_tidal_dissipation
+
+    def make_call(su_s, kw, build_only=False):
+        if kw is None:
+            kw2 = tc.single_kwargs(su_s, su_s.bodies[0], derivatives=False)
+            if build_only:
+                return kw2
+            return kw2, tc.call_repo('quick_tidal_dissipation', quick_tidal_dissipation, **kw2)
+        return tc.call_repo('quick_tidal_dissipation', quick_tidal_dissipation, **kw)
+
+    def known(ex):
+        return True if isinstance(ex.exc, ZeroDivisionError) and 'complex division' in str(ex.exc) \
+            and case['bodies'][0]['rheology'] == 'newton' else False
+
+    def extra(su_s, res, step):
+        b = su_s.bodies[0]
+        k = su_s.k
+        H, dM, dw, dO = (_full(res[x], k) for x in ('tidal_heating', 'dUdM', 'dUdw', 'dUdO'))
+        explicit = (not b.sync) and bool(np.all(b.spin == su_s.n))
+        sync = b.sync or explicit
+        obl_zero = b.obl is None or bool(np.all(b.obl == 0.0))
+        M = b.host_mass
+        if sync and b.obl is None and bool(np.all(su_s.e == 0.0)):
+            c.label('history:all_zero')
+            c.check(bool(np.all(H == 0.0) and np.all(dM == 0.0) and np.all(dw == 0.0) and np.all(dO == 0.0)),
+                    {'clause': 'all_zero', 'route': 'history'},
+                    'history call %d with the eccentricity array overwritten by zeros (synchronous, no obliquity): H=%r dUdM=%r dUdO=%r'
+                    % (step + 2, H, dM, dO))
+        if sync and obl_zero and su_s.trunc == 2 and su_s.l_max == 2:
+            kn, _, fin = tc.body_love(b, 2, su_s.n)
+            if fin:
+                ref = 10.5 * tc.G_SI * M * M * b.R ** 5 * su_s.n * su_s.e ** 2 / su_s.a ** 6 * (-(kn * np.ones(k)).imag * b.tidal_scale)
+                c.check(bool(np.all(np.abs(H - ref) <= TOL * np.abs(ref))), {'clause': 'closed_form', 'route': 'history'},
+                        'history call %d (e=%r): heating=%r  (21/2)(-Im k2) G M^2 R^5 n e^2/a^6=%r' % (step + 2, su_s.e.tolist(), H, ref))
+
+    tc.history_check(c, case, False, kw_live, make_call, 'quick_tidal_dissipation', is_known=known, extra=extra)
 
 
 def _evaluate_direct(case):
